@@ -78,6 +78,34 @@ def _mwrite(self, data, block=None):
 FileStorage.write = _fwrite
 MemoryStorage.write = _mwrite
 
+# `clear` empties the two stores before it re-initialises them: these are crash points too (kinds 4 = trie, 5 = links).
+# Recorded only while a `clear` request runs (the constructor opens its files with the same call).
+IN_CLEAR = [False]
+import builtins as _builtins
+import traph.traph as _traph_module
+_orig_mclear = MemoryStorage.clear
+
+
+def _topen(path, mode="r", *a, **k):
+    if IN_CLEAR[0] and "w" in mode:
+        name = os.path.basename(str(path))
+        kind = 4 if name == "lru_trie.dat" else 5 if name == "link_store.dat" else None
+        if kind is not None:
+            e = (kind, 0, b"")
+            WRITE_LOG.append(e); FULL_LOG.append(e)
+    return _builtins.open(path, mode, *a, **k)
+
+
+def _mclear(self):
+    if IN_CLEAR[0]:
+        e = (4 if self.block_size == LRU_TRIE_NODE_BLOCK_SIZE else 5, 0, b"")
+        WRITE_LOG.append(e); FULL_LOG.append(e)
+    return _orig_mclear(self)
+
+
+_traph_module.open = _topen
+MemoryStorage.clear = _mclear
+
 # C16: every loop iteration is a yield point (wrapped in this process only; atomic requests are unaffected
 # because run_iterator drains the generator anyway)
 from traph.traph_iterator_state import TraphIteratorState  # noqa: E402
@@ -269,6 +297,7 @@ class Impl(object):
         if op == "overwrite":
             # close, then construct again on the same folder (or in memory) with overwrite=True: a fresh index
             self.close()
+            del FULL_LOG[:]
             self.dflt = RULES[w[1]]
             self.rules = parse_rules(w[2])
             self.t = Traph(folder=self.folder, overwrite=True, default_webentity_creation_rule=self.dflt,
@@ -277,7 +306,11 @@ class Impl(object):
         if op == "clear":
             d = None if w[1] == "-" else RULES[w[1]]
             rs = None if w[2] == "none" else parse_rules(w[2])
-            t.clear(d, rs)
+            IN_CLEAR[0] = True
+            try:
+                t.clear(d, rs)
+            finally:
+                IN_CLEAR[0] = False
             return "ok"
         if op == "addrule":
             return render_report(t.add_webentity_creation_rule(unx_arg(w[1]), RULES[w[2]]))
@@ -374,6 +407,9 @@ class Impl(object):
     def cut_files(self, k, j):
         tb, lb = bytearray(), bytearray()
         def put(kind, off, data, nbytes=None):
+            if kind in (4, 5):
+                del (tb if kind == 4 else lb)[:]
+                return
             buf = tb if kind in (0, 1) else lb
             if nbytes is not None:
                 data = data[:nbytes]
